@@ -107,6 +107,16 @@ func c01(tier string) int {
 		run.Add("evaluations", tr)
 	}
 	pathExhaustive(run, tier, c01Monitor(run))
+	if tier != "thorough" {
+		// Reduced power-of-two grid incl. sizes around 2^63 and 2^64-1.
+		var st int
+		var tr int64
+		uniformTableTier(run, "C01", true, &st, &tr)
+		run.Add("states", int64(st))
+		run.Add("transitions", tr)
+		run.Add("traces_validated_against_impl", tr)
+		run.Add("evaluations", tr)
+	}
 	for _, k := range []string{"first-use", "growth", "refresh"} {
 		if run.HistGet("accepted_kinds", k) == 0 {
 			run.Vacuous("no accepted %s step was explored", k)
